@@ -168,8 +168,15 @@ def table():
         q = det.get("quick", {})
         caught = [p for p, r in q.items() if r.get("exit") == 1]
         own = q.get(meta["property"], {})
+        how = "yes" if own.get("exit") == 1 else ("NO" if own else "not run")
+        if not own and os.path.exists(os.path.join(d, "matrix.json")):
+            # rounds whose detection was recorded with matrix.py only (scratch worktrees, native debug tier of every quick workload)
+            mr = json.load(open(os.path.join(d, "matrix.json")))["results"]
+            own = mr.get(meta["property"], {})
+            how = "yes (matrix run, debug tier)" if own.get("fires") else "NO (matrix run, debug tier)"
+            caught = [p for p, r in mr.items() if isinstance(r, dict) and r.get("fires")]
         sigs = "; ".join(s.split("|", 1)[1] for s in own.get("signatures", [])[:2])
-        rows.append((name, meta["property"], "yes" if own.get("exit") == 1 else ("NO" if own else "not run"), notes.get(name, "yes"), ",".join(c for c in caught if c != meta["property"]) or "-", sigs.replace("|", "/"), (meta.get("summary") or "")[:150].replace("\n", " ").replace("|", "/")))
+        rows.append((name, meta["property"], how, notes.get(name, "yes"), ",".join(c for c in sorted(caught) if c != meta["property"]) or "-", sigs.replace("|", "/"), (meta.get("summary") or "")[:150].replace("\n", " ").replace("|", "/")))
     print("| seeded change | property | caught by its quick check now | at first try | other checks run on it that fire | signatures (first two) | what it changes |")
     print("|---|---|---|---|---|---|---|")
     for r in rows:
